@@ -438,6 +438,7 @@ fn multi_word(cfg: &Cfg, grp: &str, case: u64, rep: &mut Report, rng: &mut Rng) 
         let v1: Vec<u64> = (0..len).map(|_| if all_max { q - 1 } else { match rng.below(4) { 0 => q - 1, 1 => 0, _ => rng.below(q) } }).collect();
         let v2: Vec<u64> = (0..len).map(|_| if all_max { q - 1 } else { match rng.below(4) { 0 => q - 1, 1 => 1, _ => rng.below(q) } }).collect();
         let mut acc = 0u128; for i in 0..len { acc = (acc + v1[i] as u128 * v2[i] as u128) % q as u128; }
+        rep.count("dot_product_terms", lcls);
         let dinp = if len <= 16 { format!("q={} v1={:?} v2={:?}", q, v1, v2) } else { format!("q={} len={} all_max={} v1[..4]={:?} v2[..4]={:?}", q, len, all_max, &v1[..4], &v2[..4]) };
         chk!(rep, cfg, grp, case, "dot_product_mod", lcls, hu::dot_product_mod(&v1, &v2, &m), acc as u64, dinp);
     }
